@@ -157,6 +157,10 @@ func init() {
 					// would allow itself when it has to build a GET
 					svc.MaxGetURL = uint32(Pick(c, 1, 16, 64, 200))
 				}
+				if rc.Form == FormREST && c.Prob(0.3) {
+					// the same media type in another legal spelling: forwarded as the client spelled it
+					rc.ContentType = Pick(c, "Application/JSON", "application/json;charset=UTF-8", "application/json; charset=utf-8", "APPLICATION/JSON ; Charset=\"utf-8\"")
+				}
 				if c.Prob(0.4) && rc.Form != FormConnectGet {
 					rc.RawBody, rc.HasRawBody = c.Bytes(c.Intn(60)), true // bytes that are not valid in the protocol
 				}
@@ -183,7 +187,7 @@ func init() {
 				cp.Path = Pick(c, "/", "/nothing/here", "/sim.v1.SimService/Nope", "/v1/unknown", "/v1/shelves/1/books/2/extra", "/a%2Fb", "/x:y", "/sim.v1.SimService")
 				cp.ExtraHdrs = nil
 				if c.Bool() {
-					cp.ExtraHdrs = [][2]string{{"Content-Type", Pick(c, "application/json", "application/grpc", "text/plain", "application/connect+proto")}}
+					cp.ExtraHdrs = [][2]string{{"Content-Type", Pick(c, "application/json", "application/grpc", "text/plain", "application/connect+proto", "Application/JSON", "multipart/form-data; boundary=AbC123xYz", "text/plain;charset=UTF-8", "Image/PNG")}}
 				}
 				p = &Plan{Config: cfg, RPCs: []RPCPlan{{Client: cp}}, Sched: genSched(c), Pool: genPool(c)}
 				if c.Prob(0.35) {
